@@ -1,5 +1,6 @@
 import PatVerif.Proofs.Recode
 import PatVerif.Proofs.EdGroup
+import PatVerif.Proofs.DoubleScalarMultRefine
 /-!
 # C14 / C15: the scalar multiplications of the Ed25519 fork, end to end
 
@@ -13,10 +14,15 @@ clear) and all points of any commutative group, the recoding succeeds, no table 
 scalar multiple.** `curve_is_group` / `Point_Add_is_group_add` say that the points of edwards25519 with the addition the translated
 Go formulas compute are such a group (associativity included, `Proofs/EdAssoc.lean`).
 
-What this does not say: that the Go loops, which move between four coordinate systems, refine these group-level loops step by
-step — the conversions (`FromP3`, `fromP1xP1`, …) and the mixed additions are translated and proved one by one
-(`Proofs/EdPoints.lean`), the loops themselves are tied by the statement-level pin and by executing the multiplications against the
-RFC 8032 reference and math/big (`c14.sm`).
+The last three statements (`ScalarMult_translated`, `ScalarBaseMult_translated`, `VarTimeDoubleScalarBaseMult_translated`) close the gap
+between these group-level loops and the Go code: `Model/ScalarMultLit.lean` transcribes `scalarmult.go` and `tables.go` statement by
+statement over the **translated** point formulas (it is what `scdriver` executes against the Go code on every `c14.sm` operation),
+`Proofs/EdRepr.lean` proves every translated formula correct with respect to the group element its coordinates stand for (five coordinate
+systems), and `Proofs/ScalarMultRefine`, `ScalarBaseMultRefine`, `DoubleScalarMultRefine` compose them along the loops: for every scalar
+and every valid point the results are valid points standing for `x • g`, `x • B` and `a • gA + b • B` in the curve group.
+
+What this does not say: `SetBytesWithClamping` and `ModInverse` (math/big) are not modelled; the transcription of the two Go files is by
+hand (pinned statement by statement, executed), not by a translator.
 -/
 namespace PatVerif.Props.C14Mult
 open PatVerif.Model.Recode PatVerif.Model.ScalarMultAlg PatVerif.Proofs.Recode PatVerif.Proofs.ScalarMultAlg PatVerif.Proofs.EdGroup
@@ -78,6 +84,32 @@ theorem Point_Add_is_group_add (v p q : Generated.EdPoints.Point) (hp : Proofs.E
 /-- so in particular, on the curve: -/
 theorem scalarMult_on_curve (s : List Nat) (h : IsScalar s) (Q : EdPoint) :
     ∃ ds, signedRadix16 s = some ds ∧ varMult grp ds Q = (leNat s : Int) • Q := scalarMult_correct s h Q
+
+/-- **`(*Point).ScalarMult` of the Go code** (literal loop over the translated formulas): recoding, table, selection and the 63 rounds
+yield a valid point standing for `x • g` -/
+theorem ScalarMult_translated (s : List Nat) (h : IsScalar s) (q : Generated.EdPoints.Point) (g : EdPoint) (hq : Proofs.EdRepr.ReprP3 q g) :
+    ∃ ds, signedRadix16 s = some ds ∧ Proofs.EdRepr.ReprP3 (Model.ScalarMultLit.scalarMult ds q) ((leNat s : Int) • g) :=
+  Proofs.ScalarMultRefine.scalarMult_correct s h q g hq
+
+/-- **`(*Point).ScalarBaseMult` of the Go code**: with the translated `basepointTable`, a valid point standing for `x • B` -/
+theorem ScalarBaseMult_translated (s : List Nat) (h : IsScalar s) :
+    ∃ ds, signedRadix16 s = some ds ∧
+      Proofs.EdRepr.ReprP3 (Model.ScalarMultLit.scalarBaseMult Model.ScalarMultLit.basepointTable ds)
+        ((leNat s : Int) • Proofs.ScalarBaseMultRefine.basePoint) :=
+  Proofs.ScalarBaseMultRefine.scalarBaseMult_correct s h
+
+/-- **`(*Point).VarTimeDoubleScalarBaseMult` of the Go code**: both non-adjacent forms exist, no lookup leaves its table, and the result is a
+valid point standing for `a • gA + b • B` -/
+theorem VarTimeDoubleScalarBaseMult_translated (a b : List Nat) (ha : IsScalar a) (hb : IsScalar b)
+    (A : Generated.EdPoints.Point) (gA : EdPoint) (hA : Proofs.EdRepr.ReprP3 A gA) :
+    ∃ an bn R, nonAdjacentForm a 5 = some an ∧ nonAdjacentForm b 8 = some bn ∧
+      Model.ScalarMultLit.doubleScalarMult Model.ScalarMultLit.basepointNafTable an bn A = some R ∧
+      Proofs.EdRepr.ReprP3 R ((leNat a : Int) • gA + (leNat b : Int) • Proofs.ScalarBaseMultRefine.basePoint) :=
+  Proofs.DoubleScalarMultRefine.doubleScalarMult_correct a b ha hb A gA hA
+
+/-- non-vacuity of the three: the decoded generator is a valid point standing for the base point -/
+example : Proofs.EdRepr.ReprP3 Model.ScalarMultLit.generator Proofs.ScalarBaseMultRefine.basePoint :=
+  Proofs.ScalarBaseMultRefine.generator_repr
 
 /-- non-vacuity: a scalar with every recoding carry set, in the group ℤ -/
 example : ∃ ds, signedRadix16 (List.replicate 31 255 ++ [127]) = some ds ∧
